@@ -14,6 +14,12 @@ Monitors
   growth-count       (P+W) number of accepted shortlex words of each length =
                      coefficient of the closed-form growth series (degrees /
                      Steinberg recursion -- not the word oracle).
+  deep-equivalence   (P) beyond the budgeted length: product search of the library's
+                     automaton against an independently written reference
+                     automaton (witness finder only); a word on which the two
+                     differ -- of any length -- is judged by the exact numeric
+                     root oracles (reduced: every prefix root positive; least:
+                     no smaller generator is a left descent of a suffix).
   public-api         (W) FSA.accepts on every word up to L, FSA.enumerate_words,
                      random long words (numeric root oracle for reducedness).
   distinct-images    (W) accepted shortlex words have pairwise distinct images
@@ -40,8 +46,11 @@ RULE = ("cases = Coxeter matrix x (shortlex, even_length) x constructor route "
         "labels in {2..7,inf}; rank 3: the 84 label multisets (quick) / all 343 "
         "ordered triples (thorough); rank 4/5: curated spherical, affine, "
         "compact and cusped hyperbolic, reducible and free-product matrices "
-        "plus random ones; every word up to the budgeted length is judged "
-        "(language set equality per length + FSA.accepts on each word); "
+        "plus random ones; thorough: every rank-4 matrix over {2..7,inf} up to "
+        "relabelling (5831 orbits); every word up to the budgeted length is judged "
+        "(language set equality per length + FSA.accepts on each word), and beyond "
+        "it the shortest word on which the automaton differs from a reference "
+        "automaton (any length) is judged by exact numeric root oracles; "
         "non-trivial = rank >= 2 and at least one accepted word of length >= 2; "
         "distinct = distinct (rank, cosine-form type, reducible, has-infinity, "
         "shortlex, even, route, names, packaging) signatures")
@@ -55,8 +64,16 @@ ASSUMPTIONS = [
     "out of domain)",
     "FSA.accepts is fed a string for one-character names and a list of names "
     "for multi-character names (it iterates its argument)",
+    "library constructions that exceed a wall-clock guard (4 s quick, 150 s "
+    "thorough; large compact/affine parabolic subgroups) are dropped as a "
+    "diagnostic and never judged; the even-length variant is only built for "
+    "automata with <= 260 (quick) / 500 (thorough) states (automaton_multiple "
+    "revisits states); both are budgets, not domain restrictions",
+    "the reference automaton of deep-equivalence only proposes witness words; "
+    "the verdict on a witness comes from the numeric root oracles, which are "
+    "validated against the braid-closure oracle in the oracle-selfcheck workload",
     "distinct images means max-entry distance > 1e-6 (observed minimum "
-    "separation is reported as extra.min_image_separation)",
+    "separation is reported as extra.image_separation)",
 ]
 ANCHORS = [("geometry_tools/automata/coxeter_automaton.py", q) for q in (
     "form_gen_root", "apply_gen_to_root", "find_word_to_negative",
@@ -275,6 +292,99 @@ def judge_growth(run, M, counts, via, case, step=1):
     return True
 
 
+_refs = {}
+
+
+def reference_for(M, shortlex):
+    k = (M, bool(shortlex))
+    r = _refs.get(k)
+    if r is None:
+        if len(_refs) > 24:
+            _refs.clear()
+        r = _refs[k] = ct.ReferenceAutomaton(M, bool(shortlex))
+    return r
+
+
+def deep_equivalence(run, fsa, M, shortlex, decode_label, width, via, case, names=None):
+    """shortest word (any length) on which the library automaton and the
+    reference automaton differ, judged by the numeric oracles.  `decode_label`
+    maps a library label to a tuple of `width` generator indices."""
+    from collections import deque
+    mon = run.monitor("deep-equivalence")
+    n = len(M)
+    g = fsa.graph_dict
+    deep = run.tier == "thorough"
+    if len(g) > (20000 if deep else 3000):
+        return mon.diag("automaton larger than the deep-equivalence budget")
+    try:
+        ref = reference_for(M, shortlex)
+    except OverflowError:
+        return mon.diag("reference automaton too large")
+    starts = list(fsa.start_vertices)
+    if not starts or starts[0] not in g:
+        return
+    letters = list(itertools.product(range(n), repeat=width))
+    start = (starts[0], ref.start)
+    seen = {start: ()}
+    queue = deque([start])
+    compared = 0
+    cap = 150000 if deep else 20000
+    witness = None
+    while queue and witness is None:
+        ls, rs = queue.popleft()
+        acc = seen[(ls, rs)]
+        trans = {}
+        for lab, nxt in g[ls].items():
+            w = decode_label(lab)
+            if w is None or len(w) != width:
+                return            # malformed labels are reported by the language monitors
+            trans[w] = nxt
+        for w in letters:
+            r2 = rs
+            for x in w:
+                r2 = ref.step(r2, x)
+                if r2 is None:
+                    break
+            l2 = trans.get(w)
+            compared += 1
+            if (l2 is None) != (r2 is None):
+                witness = (acc + w, l2 is not None)
+                break
+            if l2 is not None and l2 in g and (l2, r2) not in seen:
+                if len(seen) >= cap:
+                    continue
+                seen[(l2, r2)] = acc + w
+                queue.append((l2, r2))
+    if witness is None:
+        bump(mon, compared)
+        return True
+    word, lib_accepts = witness
+    try:
+        truth = (ct.is_shortlex_numeric(M, word) if shortlex
+                 else ct.is_reduced_numeric(M, word))
+    except ArithmeticError:
+        return mon.skip("witness beyond the precision of the numeric oracle")
+    kind = "shortlex" if shortlex else "geodesic"
+    if lib_accepts == truth:
+        raise RuntimeError("reference automaton (%s) of %r is wrong on %r: library %s, "
+                           "numeric oracle says %s" % (kind, M, word, lib_accepts, truth))
+    if lib_accepts:
+        reduced = ct.is_reduced_numeric(M, word)
+        what = ("accepts %s (length %d), which is %s" % (
+            fmt(word, names), len(word),
+            "not reduced" if not reduced else "not the least reduced word of its element"))
+        key = "accepts-non-reduced-word" if not reduced else "accepts-non-least-word"
+    else:
+        what = "rejects %s (length %d), which is %s" % (
+            fmt(word, names), len(word),
+            "the shortlex-least word of its element" if shortlex else "a reduced word")
+        key = "rejects-least-word" if shortlex else "rejects-reduced-word"
+    mon.fail("deep-equivalence/%s/%s/%s/%s" % (kind, key, via, input_class(M)),
+             "%s automaton of %r %s" % (kind, M, what),
+             dict(case, witness=list(word)))
+    return False
+
+
 def fsa_views_diag(run, fsa):
     """C09's invariant rides along as a diagnostic (verdict is C09's)."""
     mon = run.monitor("fsa-views(diagnostic)", deciding=False)
@@ -299,6 +409,7 @@ def setup(run):
     run.monitor("shortlex-language", min_events=1000)
     run.monitor("even-language", min_events=200)
     run.monitor("growth-count", min_events=50)
+    run.monitor("deep-equivalence", min_events=1000)
     run.monitor("public-api", min_events=1000)
     run.monitor("distinct-images", min_events=10)
     run.monitor("oracle-selfcheck", deciding=False)
@@ -325,7 +436,11 @@ def setup(run):
         fsa_views_diag(run, call.result)
         ok = judge_language(run, M, lex, got, L, "matrix-fn", case)
         if ok and lex:
-            judge_growth(run, M, [len(s) for s in got], "matrix-fn", case)
+            ok = judge_growth(run, M, [len(s) for s in got], "matrix-fn", case)
+        if ok:
+            deep_equivalence(run, call.result, M, lex,
+                             lambda lab: (lab,) if isinstance(lab, int) and 0 <= lab < n else None,
+                             1, "matrix-fn", case)
 
     def hook_method(call):
         if call.exc is not None:
@@ -382,7 +497,11 @@ def setup(run):
         ok = judge_language(run, M, lex, got, K, "method", case, names, step=2,
                             monitor="even-language")
         if ok and lex:
-            judge_growth(run, M, [len(s) for s in got], "method-even", case, step=2)
+            ok = judge_growth(run, M, [len(s) for s in got], "method-even", case, step=2)
+        if ok and n <= 4:
+            deep_equivalence(run, call.result, M, lex,
+                             lambda lab: decode(lab, tab) if isinstance(lab, str) else None,
+                             2, "method-even", case, names)
 
     attach.wrap_everywhere(run, coxeter_automaton.generate_automaton_coxeter_matrix,
                            hook_matrix_fn)
@@ -1128,6 +1247,35 @@ def wl_selfcheck(run, rng, idx):
             if (w in red) != r2:
                 raise RuntimeError("oracles disagree on %r for %r" % (w, M))
             mon.ok()
+    # the any-length numeric oracles and the reference automaton of the
+    # deep-equivalence monitor against the closure oracle
+    B = ct.cosine_matrix(M)
+    for sl in (False, True):
+        ref = ct.ReferenceAutomaton(M, sl)
+        for l in range(L + 1):
+            want = orc.shortlex(l) if sl else orc.reduced(l)
+            got = set()
+            stack = [((), ref.start)]
+            while stack:
+                w, st = stack.pop()
+                if len(w) == l:
+                    got.add(w)
+                    continue
+                for x in range(n):
+                    nx = ref.step(st, x)
+                    if nx is not None:
+                        stack.append((w + (x,), nx))
+            if got != want:
+                raise RuntimeError("reference automaton (shortlex=%s) of %r differs from the "
+                                   "closure oracle at length %d" % (sl, M, l))
+            mon.ok()
+    for l in range(L + 1):
+        slx = orc.shortlex(l)
+        for w in orc.reduced(l):
+            if not ct.is_reduced_numeric(M, w, B) or ct.is_shortlex_numeric(M, w, B) != (w in slx):
+                raise RuntimeError("numeric oracles disagree with the closure oracle on %r for %r"
+                                   % (w, M))
+            mon.ok()
     keys = [k for l in range(L + 1) for k in orc.levels[l]]
     sep, _ = ct.min_pairwise_separation(np.array([ct.word_matrix(gens, k) for k in keys]))
     if not sep > 1e-3:
@@ -1143,7 +1291,7 @@ WORKLOADS = [
     Workload("long-words", wl_long_words, quick=24, thorough=640),
     Workload("matrix-fn", wl_matrix_fn, quick=30, thorough=320),
     Workload("tutorial", wl_tutorial, quick=4, thorough=16),
-    Workload("oracle-selfcheck", wl_selfcheck, quick=4, thorough=64),
+    Workload("oracle-selfcheck", wl_selfcheck, quick=8, thorough=96),
 ]
 EXHAUSTIVE = {"quick": False, "thorough": False}
 
